@@ -16,6 +16,63 @@ def parseEnv (s : String) : Option (List (String × Val)) :=
       | _ => none)
   | _ => none
 
+def parseQMd : SExpr → Option QMd
+  | .list xs => xs.mapM (fun x => match x with
+      | .list [.str k, v] => (PyVal.ofSExpr v).map (fun v => (k, v))
+      | _ => none)
+  | _ => none
+
+def parseOptNat : SExpr → Option (Option Nat)
+  | .atom "none" => some none
+  | .atom n => n.toNat?.map some
+  | _ => none
+
+def parseOp : SExpr → Option Op
+  | .list [.atom "dataset", .str ty] => some (.dataset ty)
+  | .list [.atom "derive", .atom s, .str op, .list args, .str ty] => do
+    pure (.derive (← s.toNat?) op (← Expr.ofSExprL args) ty)
+  | .list [.atom "terminal", .atom s, .str op, .list args] => do
+    pure (.terminal (← s.toNat?) op (← Expr.ofSExprL args))
+  | .list [.atom "qmeta", .atom s, md] => do pure (.qmeta (← s.toNat?) (← parseQMd md))
+  | .list [.atom "value", .atom s, o, t] => do
+    let title := match t with
+      | .str x => some x
+      | _ => none
+    pure (.value (← s.toNat?) (← parseOptNat o) title)
+  | _ => none
+
+/-- index of the (first) stream whose root cell is `cell` — how executors are named on the wire -/
+def streamOfCell (st : St) (cell : Nat) : Nat :=
+  (st.streams.findIdx? (fun s => s.root == cell)).getD cell
+
+def obsStream (st : St) (keys : List String) (s : Stream) : SExpr :=
+  let exe : SExpr := match getExecutor st.heap s.root none with
+    | .ok d => .atom (toString (streamOfCell st d))
+    | .error e => .str e.render
+  let looks := keys.map (fun k => match lookupQMD st.heap s.root k with
+    | some v => v.toSExpr
+    | none => .atom "absent")
+  .list [(abs st.heap s.root).toSExpr, .str s.itemType, exe, .list looks]
+
+def obsCall (st : St) (c : CallEvent) : SExpr :=
+  let a : SExpr := match c.ast with
+    | .ok e => e.toSExpr
+    | .error err => .str err.render
+  let exe := if c.exe ≥ 1000 then c.exe else streamOfCell st c.exe
+  .list [.atom (toString exe), a, match c.title with | some t => .str t | none => .atom "none"]
+
+def obsState (st : St) (keys : List String) : SExpr :=
+  .list [.list (st.streams.map (obsStream st keys)), .list (st.calls.map (obsCall st))]
+
+def runHistory (ops : List Op) (keys : List String) : SExpr :=
+  let rec go (st : St) (ops : List Op) (acc : List SExpr) : List SExpr :=
+    match ops with
+    | [] => acc.reverse
+    | op :: rest =>
+      let st' := step st op
+      go st' rest (obsState st' keys :: acc)
+  .list (go St.init ops [])
+
 def okE (e : Expr) : String := "ok\t" ++ e.render
 def bad : String := "err\tbad-request"
 
@@ -71,6 +128,17 @@ def handle (op : String) (args : List String) : String :=
        | "AsParquetFiles", [f, c] => okE (asParquet src f c)
        | _, _ => bad)
     | _, _ => bad
+  | "history", [ops, keys] =>
+    match SExpr.parse ops, (SExpr.parse keys).bind strsOfSExpr with
+    | some (.list xs), some ks => (match xs.mapM parseOp with
+      | some ops => "ok\t" ++ (runHistory ops ks).render
+      | none => bad)
+    | _, _ => bad
+  | "findEDS", [e] => match parseExpr e with
+    | some e => (match findEventDataset e with
+      | .ok _ => "ok\tunit"
+      | .error err => "err\t" ++ err.render)
+    | none => bad
   | "ev", [ds, env, e] => match parseVal ds, parseEnv env, parseExpr e with
     | some ds, some env, some e => resStr (ev (driverWorld ds) (Env.ofList env.reverse) e)
     | _, _, _ => bad
